@@ -81,4 +81,12 @@ struct wv_w_t
 #define WV_TAGIS1(p, L, k) ((L) <= (k) || (p)[k] == wv_tag[k])
 #define WV_TAGIS8(p, L, k) (WV_TAGIS1(p, L, k) && WV_TAGIS1(p, L, k + 1) && WV_TAGIS1(p, L, k + 2) && WV_TAGIS1(p, L, k + 3) && WV_TAGIS1(p, L, k + 4) && WV_TAGIS1(p, L, k + 5) && WV_TAGIS1(p, L, k + 6) && WV_TAGIS1(p, L, k + 7))
 #define WV_TAG_IS(p, L) (WV_TAGIS8(p, L, 0) && WV_TAGIS8(p, L, 8) && WV_TAGIS8(p, L, 16) && WV_TAGIS8(p, L, 24))
+/* --- content of input files: an uninterpreted function of (file identity, offset); seed string length for strlen */
+unsigned char __CPROVER_uninterpreted_filebyte(int id, unsigned long long off);
+#define wv_filebyte __CPROVER_uninterpreted_filebyte
+unsigned long long wv_rP;         /* observed absolute offset of reads (chosen by the harness, never assigned) */
+unsigned long long wv_slen;       /* length of the seed string (what strlen returns) */
+unsigned wv_gi;                   /* observed index into the IV table */
+/* --- verify(): the magic-number verdict as a ghost (so that contracts up the call chain need not repeat eight file bytes) */
+_Bool wv_magic_ok;
 #endif
